@@ -66,6 +66,39 @@ def illegal_tail(rng, s, model):
     return why
 
 
+def replay_views(s, model):
+    """independent replay of an ACCEPTED clean history: after every event of a thread, (clock, thread, (task id, body id) of
+    the body on top of its stack if that body is running else None, thread state).  Rules from the property text only:
+    x pushes a running body, e pops it, p/r pause/resume the top."""
+    import struct
+    M = "V" if model == "nosv" else "6"
+    stacks = {}
+    tstate = {}
+    out = []
+    for (t, clk, mcv, pl) in sorted(s.events, key=lambda e: e[1]):
+        if mcv[:2] == "OH":
+            nxt = {"x": "Running", "p": "Paused", "r": "Running", "e": "Dead", "c": "Cooling", "w": "Warming"}.get(mcv[2])
+            if nxt:
+                tstate[t] = nxt
+        elif mcv[0] == M and mcv[1] == "T" and mcv[2] in "xepr":
+            tid = struct.unpack("<I", bytes(pl)[:4])[0]
+            bid = struct.unpack("<I", bytes(pl)[4:8])[0] if model == "nosv" else 0
+            stk = stacks.setdefault(t, [])
+            if mcv[2] == "x":
+                stk.append([tid, bid, "R"])
+            elif mcv[2] == "e":
+                if stk:
+                    stk.pop()
+            elif mcv[2] == "p" and stk:
+                stk[-1][2] = "P"
+            elif mcv[2] == "r" and stk:
+                stk[-1][2] = "R"
+        stk = stacks.get(t, [])
+        top = (stk[-1][0], stk[-1][1]) if (stk and stk[-1][2] == "R") else None
+        out.append((clk, t, top, tstate.get(t, "Unknown")))
+    return out
+
+
 def run(chk):
     build, oracle, tables = emucheck.setup(chk)
     chk.assumptions = ["type ids/labels and task ids are fresh per process; thread events as in C04",
@@ -114,7 +147,7 @@ def run(chk):
                     # while a body runs (and the thread runs) the thread row shows its task id; nothing otherwise
                     g = s.thread_gindex()
                     t0 = min(e[1] for e in s.events)
-                    for (clk, t, running, tst) in s.task_shadow:
+                    for (clk, t, running, tst) in s.task_shadow + replay_views(s, model):
                         want = running[0] if (running and tst == "Running") else 0
                         got = emucore.timeline(r["rows"].get((0, g[t] + 1, ty["task"]), []), clk - t0)
                         if got != want:
